@@ -163,5 +163,6 @@ func init() {
 		}
 		arithmeticFoundations(c)
 		groupFoundations(c, true)
+		ownershipRules(c) // encodings handed out are copies; inputs are not modified
 	}
 }
